@@ -220,12 +220,41 @@ private:
     mem_cache_entry():storage(nullptr){}
     mem_cache_entry(double* p, uint8_t o):storage(p),offset(o){}
   };
+  ///Set once storage_cache has been destroyed (at thread or program exit).
+  ///Trivially destructible, so it remains readable afterwards; function-local
+  ///so that no cross-unit initialisation of thread-local storage is involved.
+  static bool& storage_cache_dead(){
+    static
+    #ifdef SQUIDS_THREAD_LOCAL
+    SQUIDS_THREAD_LOCAL
+    #endif
+    bool dead=false;
+    return(dead);
+  }
+  ///The per-dimension caches of previously used backing storage blocks.
+  ///The destructor releases whatever is still cached, so that a thread gives
+  ///its blocks back when it ends.
+  struct storage_cache_set{
+    detail::cache<mem_cache_entry,32> caches[SQUIDS_MAX_HILBERT_DIM+1];
+    detail::cache<mem_cache_entry,32>& operator[](unsigned int i){ return(caches[i]); }
+    ~storage_cache_set(){
+      storage_cache_dead()=true; //vectors destroyed later must not use this object
+      for(unsigned int dim=0; dim<=SQUIDS_MAX_HILBERT_DIM; dim++){
+        while(true){
+          mem_cache_entry cache_result=caches[dim].get();
+          if(!cache_result.storage)
+            break;
+          delete[] (cache_result.storage-cache_result.offset);
+        }
+      }
+    }
+  };
   ///A cache of previously used backing storage blocks
   static
   #ifdef SQUIDS_THREAD_LOCAL
   SQUIDS_THREAD_LOCAL //one cache per thread if supported
   #endif
-  detail::cache<mem_cache_entry,32> storage_cache[SQUIDS_MAX_HILBERT_DIM+1];
+  storage_cache_set storage_cache;
 #endif
   
   ///A helper function which tries to put a memory block into the cache rather
@@ -233,7 +262,7 @@ private:
   void deallocate_mem(){
 #if SQUIDS_USE_STORAGE_CACHE
     bool cached=false;
-    if(((intptr_t)(components+dim%2))%32 == 0) //only try to save aligned storage
+    if(!storage_cache_dead() && ((intptr_t)(components+dim%2))%32 == 0) //only try to save aligned storage
       cached=storage_cache[dim].insert(mem_cache_entry{components,ptr_offset});
     if(!cached)
 #endif
@@ -249,7 +278,9 @@ private:
   static void alloc_aligned(unsigned int dim, unsigned int size,
                             double*& components, unsigned char& ptr_offset){
 #if SQUIDS_USE_STORAGE_CACHE
-    mem_cache_entry cache_result=storage_cache[dim].get();
+    mem_cache_entry cache_result;
+    if(!storage_cache_dead())
+      cache_result=storage_cache[dim].get();
     if(cache_result.storage){
       components=cache_result.storage;
       ptr_offset=cache_result.offset;
